@@ -424,6 +424,18 @@ inline std::time_t bad_t4_no_leap_second(int sec) {
     throw std::invalid_argument{"sec"};
 }
 
+inline int64_t bad_s6_base_zero(const char* s) {
+    if (*s == '\0' || std::isspace(*s)) {
+        throw std::range_error{"empty"};
+    }
+    char* end = nullptr;
+    const auto v = std::strtoll(s, &end, 0);          // "010" -> 8, "0x10" -> 16
+    if (v == std::numeric_limits<long long>::min() || v == std::numeric_limits<long long>::max() || *end != '\0') {
+        throw std::range_error{"bad"};
+    }
+    return v;
+}
+
 inline uint32_t ok_strict(const char* s) {
     if (*s != '\0' && *s != '-' && !std::isspace(*s)) {
         char* end = nullptr;
@@ -514,6 +526,7 @@ inline void use_all(const char* s, const char** p) {
     (void)bad_s3_empty_accepted(s);
     (void)bad_s4_space_accepted(s);
     (void)ok_strict(s);
+    (void)bad_s6_base_zero(s);
     char buf[64];
     (void)bad_o1_result_dropped(buf, 1);
     (void)bad_o1_sibling_result_dropped(buf, 1, 2);
